@@ -453,8 +453,14 @@ SigAlgs == { "ed25519", "ecdsa-sha256", "ecdsa-sha1", "sha256-rsa", "sha1-rsa", 
              "rsa-pss-sha256", "rsa-pss-badparams", "dsa-sha1", "dsa-sha256", "unknown" }
 
 (* operator x argument menus per DER node type *)
+(* Truncate cuts the whole artifact (every enclosing length then exceeds the data);
+   CutLocal cuts INSIDE: everything after the cut point is removed and the enclosing
+   lengths are recomputed, so only the node's own header still claims its original
+   length - the case of an inner TLV reaching past the end of the buffer it is parsed
+   from (sub-slices of enclosing contents, explicit tags, wrapped OCTET STRINGs). *)
 DerCommon ==
   { <<"Truncate", a>> : a \in { "in-tag", "in-len", "in-body", "at-end" } }
+  \cup { <<"CutLocal", a>> : a \in { "after-header", "in-body", "at-end" } }
   \cup { <<"LenPlus", a>> : a \in { "1", "200" } }
   \cup { <<"LenMinus", "1">>, <<"LenIndefinite", "-">>, <<"EmptyBody", "-">>, <<"DupNode", "-">>,
          <<"DropNode", "-">>, <<"SwapSiblings", "-">> }
@@ -526,7 +532,7 @@ Muts == TLCEval([ k \in Kinds |-> TLCEval(
 NodeOf(k, n) == CHOOSE nd \in Nodes[k] : nd.n = n
 
 Family(op) ==
-  CASE op = "Truncate" -> "truncate"
+  CASE op \in { "Truncate", "CutLocal" } -> "truncate"
     [] op \in { "LenPlus", "LenMinus", "LenHuge", "LenNonMinimal", "LenIndefinite", "InnerLen" } -> "length"
     [] op \in { "CountHuge", "Repeat", "Grow" } -> "count"
     [] op = "Retag" -> "tag"
@@ -553,6 +559,7 @@ ReducedArg(m) ==
   \/ m.op \in { "LenMinus", "LenIndefinite", "EmptyBody", "DupNode", "DropNode", "SwapSiblings", "ZeroInt",
                 "JsonNull", "SelfIssue" }
   \/ m.op = "Truncate" /\ m.a = "in-body"
+  \/ m.op = "CutLocal" /\ m.a = "after-header"
   \/ m.op = "LenPlus" /\ m.a = "1"
   \/ m.op = "LenHuge" /\ m.a = "u32max"
   \/ m.op = "CountHuge" /\ m.a = "max"
@@ -565,7 +572,12 @@ IsCoreNodeRec(nd) ==
   /\ ~(Len(nd.n) > 5 /\ SubSeq(nd.n, Len(nd.n) - 4, Len(nd.n)) = "#last")
 CoreNames == TLCEval([ k \in Kinds |-> TLCEval({ nd.n : nd \in { x \in Nodes[k] : IsCoreNodeRec(x) } }) ])
 IsCoreNode(k, n) == n \in CoreNames[k]
-Reduced == TLCEval([ k \in Kinds |-> TLCEval({ m \in Muts[k] : ReducedArg(m) /\ IsCoreNode(k, m.n) }) ])
+(* the reduced set lives on the structural node classes (containers, integers, bit /
+   octet strings, length-carrying binary fields), not on leaf atoms *)
+StructuralTypes == { "seq", "set", "explicit", "algid", "name", "spki", "ext", "bits", "octets", "int",
+                     "vec", "vecder", "opaque", "group", "count", "u", "jobj", "jarr", "jb64der" }
+StructNames == TLCEval([ k \in Kinds |-> TLCEval({ nd.n : nd \in { x \in Nodes[k] : IsCoreNodeRec(x) /\ x.t \in StructuralTypes } }) ])
+Reduced == TLCEval([ k \in Kinds |-> TLCEval({ m \in Muts[k] : ReducedArg(m) /\ m.n \in StructNames[k] }) ])
 Context == TLCEval([ k \in Kinds |-> TLCEval({ m \in Muts[k] : IsContext(m) }) ])
 
 (* second mutation after a context mutation: every mutation of a core node class (the
@@ -573,12 +585,14 @@ Context == TLCEval([ k \in Kinds |-> TLCEval({ m \in Muts[k] : IsContext(m) }) ]
    kind "tbs", whose tree is the certificate's, only the reduced set *)
 AfterContext == TLCEval([ x \in Kinds |-> TLCEval(IF x = "tbs" THEN Reduced[x] ELSE { m \in Muts[x] : IsCoreNode(x, m.n) }) ])
 After(k) == AfterContext[k]
-CanFollow(k, m1, m2) ==
-  \/ /\ IsContext(m1) /\ m2 \in After(k) /\ (~IsContext(m2) \/ m2.n # m1.n)
-  \/ /\ m1 \in Reduced[k] /\ m2 \in Reduced[k] /\ m2.n # m1.n
+(* the mutations that may follow m1 in a depth-2 program *)
+Next2(k, m1) ==
+  (IF IsContext(m1) THEN { x \in After(k) : ~IsContext(x) \/ x.n # m1.n } ELSE {})
+  \cup (IF m1 \in Reduced[k] THEN { x \in Reduced[k] : x.n # m1.n } ELSE {})
+CanFollow(k, m1, m2) == m2 \in Next2(k, m1)
 
 Programs1(k) == { <<>> } \cup { <<m>> : m \in Muts[k] }
-Programs2(k) == UNION { { <<a, b>> : b \in { x \in Muts[k] : CanFollow(k, a, x) } } : a \in Context[k] \cup Reduced[k] }
+Programs2(k) == UNION { { <<a, b>> : b \in Next2(k, a) } : a \in Context[k] \cup Reduced[k] }
 Programs(k, depth) == IF depth <= 1 THEN Programs1(k) ELSE Programs1(k) \cup Programs2(k)
 
 WellFormed(k, prog) ==
@@ -629,7 +643,7 @@ Totality(obs, len) ==
    must report an error (len is the number of bytes left).  Only for DER kinds, native entry points, programs whose
    last operator is Truncate and that contain no length-changing operator.        *)
 LengthChanging(m) == Family(m.op) \in { "length", "count", "inner", "nest" }
-                     \/ m.op \in { "Retag", "ByteNoise", "KeyShape", "DropNode", "EmptyBody", "DupNode" }
+                     \/ m.op \in { "Retag", "ByteNoise", "KeyShape", "DropNode", "EmptyBody", "DupNode", "CutLocal" }
 
 NarrowOK(k, prog, ep, seedclass) ==
   prog = <<>> /\ seedclass = "gen" /\ ep \in Native[k]
